@@ -107,6 +107,13 @@ pub fn run_all(out: &str, seed: u64, profile: &str, thorough: bool) {
                                                (101, 5), (250, 3), (257, 9), (1000, 2)];
     if thorough {
         blocks.extend([(3, 129), (7, 255), (40, 13), (75, 31), (127, 2), (500, 17), (2000, 4), (5000, 1)]);
+        if profile.starts_with("release") {
+            blocks.extend([(12000, 1), (20000, 1)]);
+        }
+    } else if profile.starts_with("release") {
+        // one block whose sparse tail grows past two words per row (dense columns cross 128); builds without debug
+        // assertions only - the solver's self-checks make this size take minutes otherwise
+        blocks.push((5000, 1));
     }
     // object scenarios: (F, T, Z, N, Al)
     let objects: Vec<(u64, u16, u8, u16, u8)> = vec![(1, 1, 1, 1, 1), (37, 3, 2, 1, 1), (1030, 16, 3, 2, 4), (5000, 40, 2, 5, 8), (9001, 8, 4, 1, 8)];
